@@ -4,6 +4,7 @@ use serde_json::{json, Value};
 use std::io::{BufRead, Write};
 
 mod conv;
+mod corpus;
 mod derive;
 mod dump;
 mod echo;
